@@ -151,7 +151,8 @@ def check_noise_free(c):
     img = skyimg.render(B["w"], B["shape"], [B["src"]])
     # K1: the documented amplitude bound 1.05*brightest pixel + 3 rms must not exclude the truth
     peakpix = float(np.max(np.abs(img)))
-    if abs(B["src"]["peak"]) > 1.05 * peakpix + 3 * B["rms"]:
+    k1 = bool(abs(B["src"]["peak"]) > 1.05 * peakpix + 3 * B["rms"])
+    if k1 and not c.get("allow_K1"):
         res.excluded_known += 1
         res.label("excluded-K1")
         return res
@@ -163,7 +164,7 @@ def check_noise_free(c):
         comps = run_finder(path, B["rms"], bkg if bkg is not None else None, c["docov"])
     finally:
         shutil.rmtree(d, ignore_errors=True)
-    tags = dict(proj=c["hdr"]["proj"], docov=c["docov"])
+    tags = dict(proj=c["hdr"]["proj"], docov=c["docov"], amplitude_bound_excludes_truth=k1)
     what = "%s dec0=%.1f scale=%.1f\" %dx%d src (a=%.2f b=%.2f px, pa=%.1f) snr=%.0f docov=%s" % (
         c["hdr"]["proj"], c["hdr"]["crval2"], c["hdr"]["scale"], B["shape"][0], B["shape"][1],
         B["src"]["a"] / B["s"], B["src"]["b"] / B["s"], B["src"]["pa"], c["src"]["snr"], c["docov"])
